@@ -686,7 +686,7 @@ func TestC07(t *testing.T) {
 		}
 	}
 	r := evid.Rand(7)
-	n := evid.N(1000, 20000)
+	n := evid.N(1000, 10000)
 	tried, accepted := map[string]int{}, map[string]int{}
 	total, acc := 0, 0
 	for i := 0; i < n; i++ {
